@@ -6,6 +6,7 @@ import (
 	"crypto/x509"
 	"encoding/json"
 	"encoding/pem"
+	"errors"
 	"fmt"
 	"go/ast"
 	"go/importer"
@@ -241,6 +242,29 @@ func siteInventory() ([]string, error) {
 	})
 	sort.Strings(keys)
 	return keys, err
+}
+
+// oddCache: a crl.Cache that misbehaves in one way
+type oddCache struct{ mode string }
+
+func (c oddCache) Get(ctx context.Context, url string) (*crlpkg.Bundle, error) {
+	switch c.mode {
+	case "getfail":
+		return nil, errors.New("cache get failed (injected)")
+	case "getfail-wrapped-miss":
+		return nil, fmt.Errorf("no entry: %w", crlpkg.ErrCacheMiss)
+	case "get-nil-nil":
+		return nil, nil
+	case "get-bundle-without-base":
+		return &crlpkg.Bundle{}, nil
+	}
+	return nil, crlpkg.ErrCacheMiss
+}
+func (c oddCache) Set(ctx context.Context, url string, b *crlpkg.Bundle) error {
+	if c.mode == "setfail" {
+		return errors.New("cache set failed (injected)")
+	}
+	return nil
 }
 
 // zeroBody: left zero bytes, generated on demand; n counts what was read
@@ -610,6 +634,27 @@ func genC09(tier string, rng *RNG, w *CaseWriter) {
 		n++
 		w.Count("kind:" + sc.name)
 		w.Emit(fmt.Sprintf("(mk @ID@ %d %d)", 1000000*7+n, out), map[string]any{"kind": sc.name, "outcome": []string{"returned", "panicked", "hung", "", "read beyond the size cap"}[out], "detail": msg}, "size-cap", true)
+	}
+	// (4a'') cache faults crossed with the discard option: a cache whose Get / Set fail (bare, wrapped, with a nil bundle) must
+	// never make Fetch or the validator panic, whatever DiscardCacheError says (a cache returning (nil, nil) or a bundle
+	// without a base CRL breaks the documented contract of crl.Cache; that is caller code, not an input of the property)
+	for _, discard := range []bool{true, false} {
+		for _, mode := range []string{"getfail", "setfail", "getfail-wrapped-miss"} { // caches that honour the interface contract: a bundle, a miss, or an error
+			discard, mode := discard, mode
+			crlDER := buildCRL(crlSpec{Number: 9, Next: "+1h", Signer: "issuer"}, rchain.certs[1], rxs[0].SerialNumber)
+			rt := newWorldRT()
+			rt.handlers[rxs[0].OCSPServer[0]] = func(*http.Request) (*http.Response, error) { return httpBody(500, nil) }
+			rt.handlers[rxs[0].CRLDistributionPoints[0]] = func(*http.Request) (*http.Response, error) { return httpBody(200, crlDER) }
+			client := &http.Client{Transport: rt, Timeout: 3 * time.Second}
+			emit(5, "cache-fault-x-discard", func() {
+				hf, _ := crlpkg.NewHTTPFetcher(client)
+				hf.Cache = oddCache{mode}
+				hf.DiscardCacheError = discard
+				hf.Fetch(context.Background(), rxs[0].CRLDistributionPoints[0])
+				v, _ := revocation.NewWithOptions(revocation.Options{OCSPHTTPClient: client, CRLFetcher: hf, CertChainPurpose: purpose.CodeSigning})
+				v.ValidateContext(context.Background(), revocation.ValidateContextOptions{CertChain: rxs})
+			}, 8*time.Second)
+		}
 	}
 	// (4b) a panic raised inside a background per-certificate check (here: by the caller-supplied transport or fetcher)
 	// must reach the caller's goroutine, where it is recoverable: it must never kill the process
